@@ -2,6 +2,10 @@ import AFDriver.Wire
 import AFDriver.C03
 import AFModel.FloatOps
 import AFModel.Fitness
+import AFModel.SearchTable
+import AFModel.LogPrior
+import AFModel.ResumeCheck
+import AFModel.Generated.C04
 
 open Lean (Json)
 open AF AF.Wire
@@ -22,7 +26,43 @@ def jsonOfResult : CallResult Float → Json
   | .value x => Json.str (hexOfFloat x)
   | .raises => Json.str "raises"
 
+def jsonOfRow (r : SearchRow) : Json :=
+  Json.mkObj [("name", r.name),
+    ("family", match r.family with | .nest => "nest" | .mcmc => "mcmc" | .mle => "mle"),
+    ("owner", r.owner),
+    ("fitness_class", match r.fitnessClass with | .plain => "plain" | .pyswarms => "pyswarms"),
+    ("fom_is_log_likelihood", r.fomIsLL), ("convert_to_chi_squared", r.convertChi),
+    ("history", match r.history with | .off => "off" | .on => "on" | .dynamic => "dynamic"),
+    ("resample_bits", hexOfNat r.resampleBits.toNat 16), ("passes_paths", r.passesPaths),
+    -- what the model derives from the row
+    ("minimises", r.minimises), ("posterior", r.posterior),
+    ("resample_received", hexOfFloat (rowResample floatFom r)),
+    ("designated", rowDesignated floatFom r)]
+
+/-- `kind = "table"`: the compiled table of search classes -/
+def handleC04Table : Json :=
+  Json.mkObj [("rows", Json.arr ((Generated.C04.searchRows.map jsonOfRow).toArray)),
+    ("default", jsonOfRow Generated.C04.defaultRow)]
+
+/-- `prior_table`: what `log_prior_from_value` reads from each prior, keyed by prior id (the order of
+the entries is the order of a tree walk, not the parameter order) -/
+def parsePriorTable (j : Json) : Except String (List (Nat × PriorD Float)) := do
+  (← getArr j "prior_table").toList.mapM fun p => do
+    let id ← getNat p "id"
+    let kind ← getStr p "kind"
+    pure (id, { kind := PriorKind.ofString kind, mean := (getFloat p "mean").toOption.getD 0.0,
+                sigma := (getFloat p "sigma").toOption.getD 1.0 })
+
 def handleC04 (j : Json) : Except String Json := do
+  if (getStr j "kind").toOption == some "table" then return handleC04Table
+  if (getStr j "kind").toOption == some "logprior" then
+    -- `model.log_prior_list_from_vector(v)` for each vector: the terms, their sum, the ids in parameter order
+    let t := (← parseNode (← j.getObjVal? "comp")).node
+    let tbl ← parsePriorTable j
+    let vs ← (← getArr j "vectors").toList.mapM vecOfJson
+    return Json.mkObj [("order", Json.arr ((uniqueIds t).map (fun (n : Nat) => (n : Json))).toArray),
+      ("terms", Json.arr (vs.map (fun v => jsonOfVec (logPriorList floatLp tbl t v))).toArray),
+      ("sums", jsonOfVec (vs.map (fun v => logPriorSum floatFom floatLp tbl t v)))]
   let parsed ← parseNode (← j.getObjVal? "comp")
   let t := parsed.node
   let lims ← parseLims (← j.getObjVal? "lims")
@@ -31,16 +71,48 @@ def handleC04 (j : Json) : Except String Json := do
   let cfg : FitCfg Float := {
     fomIsLL := (← getBool cfgj "fom_is_ll"), convertChi := (← getBool cfgj "chi"),
     storeHistory := (← getBool cfgj "history"), resample := (← getFloat cfgj "resample") }
-  let priors ← (← getArr j "priors").toList.mapM fun p => do
-    let kind ← getStr p "kind"
-    pure (kind, (getFloat p "mean").toOption.getD 0.0, (getFloat p "sigma").toOption.getD 1.0)
-  let lp : List Float → List Float := fun v =>
-    (priors.zip v).map (fun ((kind, mean, sigma), x) => logPriorFloat kind mean sigma x)
+  -- the log-prior terms are computed by the model from the composition tree (parameter order) and the
+  -- per-prior descriptions; `priors` (descriptions already in parameter order) is no longer read
+  let tbl ← parsePriorTable j
+  let lp : List Float → List Float := logPriorList floatLp tbl t
   let g : List Float → Except GateErr (Inst Float) := fun v => gate floatOps t lims asserts v false
   let calls ← (← getArr j "calls").toList.mapM fun c => do
     let v ← vecOfJson (← c.getObjVal? "v")
     let o ← parseOutcome (← c.getObjVal? "o")
     pure (v, o)
+  -- `kind = "resume"`: the object is built with `paths` (check_log_likelihood runs), then called
+  if (getStr j "kind").toOption == some "resume" then
+    let pj ← j.getObjVal? "paths"
+    let paths ← if pj.isNull then pure none else do
+      let sj ← pj.getObjVal? "stored"
+      let stored : Stored Float ← match (← getStr sj "kind") with
+        | "none" => pure Stored.noSummary
+        | "nosample" => pure Stored.noSample
+        | _ => do pure (Stored.sample (← getFloat sj "ll") (← vecOfJson (← sj.getObjVal? "params")))
+      let o ← parseOutcome (← pj.getObjVal? "o")
+      pure (some ((← getBool pj "test_mode"), (← getBool pj "cfg_on"), stored, o))
+    let evaluates := match paths with
+      | some (tm, on, st, _) => checkEvaluates tm on st g
+      | none => false
+    match constructAndRun floatFom floatClose cfg g lp paths calls with
+    | .error r =>
+      return Json.mkObj [("construct", match r with | .passes => "passes" | .searchException => "searchException" | .escapes => "escapes"),
+        ("evaluates", evaluates)]
+    | .ok (rs, st) =>
+      return Json.mkObj [("construct", "passes"), ("evaluates", evaluates),
+        ("results", Json.arr (rs.map jsonOfResult).toArray),
+        ("hist_params", Json.arr (st.params.map jsonOfVec).toArray),
+        ("hist_ll", jsonOfVec st.lls)]
+  -- `search` given: the flags come from the table row of that search class, not from the request
+  if let some name := (getStr j "search").toOption then
+    match findRow Generated.C04.searchRows name with
+    | none => throw s!"no row for search class {name}"
+    | some r =>
+      let hist := (getBool j "hist").toOption.getD false
+      let (rs, st) := rowRun floatFom r hist g lp {} calls
+      return Json.mkObj [("results", Json.arr (rs.map jsonOfResult).toArray),
+        ("hist_params", Json.arr (st.params.map jsonOfVec).toArray),
+        ("hist_ll", jsonOfVec st.lls)]
   let pyswarms := (getBool j "pyswarms").toOption.getD false
   if pyswarms then
     let rs := pyswarmsBatch floatFom cfg g lp calls
